@@ -1,8 +1,8 @@
 """C13, machine level: the timers as the two machines tick them while *executing instructions*.
 
-A small program (NOP, `MV IL,n` + WAIT, HALT, final `JR -2` self-loop) sits in RAM at 0xB8100, IMR = 0 so no
-interrupt is ever delivered (ticking is therefore never suppressed), and the machine is stepped one instruction
-at a time:
+Plain flavour: a small program (NOP, `MV IL,n` + WAIT, HALT, final `JR -2` self-loop) sits in RAM at 0xB8100,
+IMR = 0 so no interrupt is ever delivered (ticking is therefore never suppressed), and the machine is stepped one
+instruction at a time:
 
   py-machine    pce500.emulator.PCE500Emulator.step            (+ save_snapshot/load_snapshot at generated points)
   rust-machine  sc62015_core::CoreRuntime::step                 (+ save_snapshot/load_snapshot through the zip shim)
@@ -19,6 +19,17 @@ the period, grid = base + k*p and nb(x) the smallest grid point > x, for an acti
   * the target did not move and the bit was clear before the step  ==>  it is still clear (no firing without a
     boundary);  an inactive timer (disabled / zero period) never gets its bit set;
   * save -> load into a fresh machine changes neither cycle counter, ISR nor targets.
+
+"irq" flavour (interrupts unmasked): main program (looping), handler (.. RETI) and both vectors live in a ROM image,
+IMR is generated, interrupts are delivered, and save/load round trips and machine resets also happen while a handler
+runs.  Both machines gate the timers while in_interrupt, so inside a handler the cycle counter runs ahead of the
+targets; the first tick after RETI catches up.  Per step the harness observes whether the step's instruction ran
+inside a handler ("in_exec").  The lower bound nb(C-1) <= target is asserted for in_exec = false only (every cycle
+of an instruction outside a handler is ticked -- this is what sees a WAIT that stops ticking early); the other
+rules hold everywhere, except that a pending status bit may be cleared inside a handler (CoreRuntime's RETI
+acknowledges the delivered request).  save -> load keeps a target that lies *behind* the cycle counter
+(where tag " stale-target"); a machine reset re-arms the timers one period after the machine's own cycle counter
+and the grid is re-anchored there.
 """
 
 from __future__ import annotations
@@ -31,8 +42,14 @@ from ..gen_state import Stream
 from .. import rsclient
 
 BASE = 0xB8100
-NOP, WAIT, HALT, MV_IL = 0x00, 0xEF, 0xDE, 0x09
+NOP, WAIT, HALT, MV_IL, RETI, JR_BACK = 0x00, 0xEF, 0xDE, 0x09, 0x01, 0x13
 JR_SELF = (0x13, 0x02)
+# "irq" flavour: main program, interrupt handler and both vectors in a ROM image (a RAM program would be wiped by
+# PCE500Emulator.reset(), and without a ROM overlay the Python machine's vector fetch at 0xFFFFA aliases IMEM)
+ROM_BASE, ROM_SIZE = 0xC0000, 0x40000
+MAIN, HANDLER = 0xC0100, 0xC0800
+IRQ_VECTOR, RESET_VECTOR = 0xFFFFA, 0xFFFFD
+STACK_TOP = 0xBFF00
 I32MAX = 2 ** 31 - 1
 TIMERS = ("MTI", "STI")
 
@@ -104,7 +121,8 @@ def selftest() -> None:
     from .. import textparse as TP
 
     want = {bytes([NOP]): ("NOP", 1), bytes([WAIT]): ("WAIT", 1), bytes([HALT]): ("HALT", 1),
-            bytes([MV_IL, 5]): ("MV", 2), bytes(JR_SELF): ("JR", 2)}
+            bytes([MV_IL, 5]): ("MV", 2), bytes(JR_SELF): ("JR", 2), bytes([RETI]): ("RETI", 1),
+            bytes([JR_BACK, 0x21]): ("JR", 2)}
     for code, (mn, ln) in want.items():
         r = TP.tokens(code + b"\x00" * 8)
         if r is None or TP.mnemonic(r[0]) != mn or r[1] != ln:
@@ -163,6 +181,83 @@ def gen_machine_case(seed: int, mti: int, sti: int, enabled: bool, idx: int, sna
     return case
 
 
+IMR_CHOICES = (0x83, 0x83, 0x83, 0x81, 0x82, 0x81, 0x82, 0xFF, 0x80, 0x03, 0x00)
+
+
+def gen_irq_case(seed: int, mti: int, sti: int, enabled: bool, idx: int, snapshots: bool,
+                 resets: bool) -> Dict[str, Any]:
+    """Interrupts are *not* masked: IMR is a generated dimension (IRM with one/both timer sources, IRM only, sources
+    without IRM, 0), the main program loops over NOP / MV IL,n+WAIT / HALT blocks (WAIT lengths reach over several
+    boundaries of either timer), the handler is NOP runs and its own WAITs ending in RETI (from 'return at once'
+    to 'outlasts several periods'), and real save/load round trips and machine resets happen at generated steps --
+    also inside the handler, where the timers are gated and a saved target may lie behind the cycle counter."""
+    st = Stream(seed, 0xC131E, mti, sti, idx, int(enabled))
+    ps = [p for p in (mti, sti) if p > 0] or [3]
+    lo_p, hi_p = min(ps), max(ps)
+
+    def wait_len() -> int:
+        p = st.choice(ps)
+        return min(255, max(1, st.choice((1, 2, p - 1, p, p + 1, 2 * p, 2 * p + 1, 3 * p + 1, lo_p + hi_p,
+                                          2 * hi_p + 1, hi_p + 1, 1 + st.below(40), 255, 1 + st.below(255)))))
+
+    prog: List[int] = []
+    for _ in range(3 + st.below(6)):
+        k = st.below(10)
+        if k <= 2:
+            prog += [NOP] * (1 + st.below(4))
+        elif k <= 7:
+            prog += [MV_IL, wait_len(), WAIT]
+        else:
+            prog += [HALT]
+            if st.chance(1, 2):
+                prog += [NOP]
+    prog += [JR_BACK, len(prog) + 2]            # JR back to the first instruction
+    handler: List[int] = []
+    shape = st.below(8)
+    if shape == 0:
+        pass                                       # RETI at once
+    elif shape <= 2:
+        handler += [NOP] * (1 + st.below(6))       # short
+    else:
+        for _ in range(1 + st.below(3)):
+            if st.chance(1, 3):
+                handler += [NOP] * (1 + st.below(5))
+            p = st.choice(ps)
+            n = st.choice((1, 2, max(1, p - 2), max(1, p - 1), p, p + 1, 2 * p + 1, hi_p + 1, lo_p + hi_p,
+                           1 + st.below(40)))
+            handler += [MV_IL, min(255, n), WAIT]
+        handler += [MV_IL, 1 + st.below(3)]        # leave I != 0 for an interrupted MV IL,n / WAIT pair
+    handler += [RETI]
+    nsteps = 40 + st.below(80)
+    clear_mode = st.below(4)
+    steps: List[List[int]] = []
+    nsnap = nreset = 0
+    for k in range(nsteps):
+        if clear_mode == 0:
+            clear = 0
+        elif clear_mode == 1:
+            clear = st.choice((0, 0, 3, 3, 1, 2))
+        elif clear_mode == 2:
+            clear = 3
+        else:
+            clear = 3 if st.chance(1, 7) else 0
+        action = 0
+        if k >= 3:
+            if snapshots and nsnap < 5 and st.chance(1, 9):
+                action, nsnap = 1, nsnap + 1
+            elif resets and nreset < 2 and st.chance(1, 25):
+                action, nreset = 2, nreset + 1
+        steps.append([clear, action])
+    return {"layer": "machine", "flavour": "irq", "mti": mti, "sti": sti, "enabled": enabled, "prog": prog,
+            "handler": handler, "imr": st.choice(IMR_CHOICES), "steps": steps}
+
+
+def gen_from_config(seed: int, cfg: Tuple[Any, ...]) -> Dict[str, Any]:
+    if cfg and cfg[0] == "irq":
+        return gen_irq_case(seed, *cfg[1:])
+    return gen_machine_case(seed, *cfg)
+
+
 def plan(seed: int, tier: str) -> List[Tuple[Any, ...]]:
     out: List[Tuple[Any, ...]] = []
     per_pair = 2 if tier == "quick" else 24
@@ -179,10 +274,39 @@ def plan(seed: int, tier: str) -> List[Tuple[Any, ...]]:
         out.append((mti, sti, st.below(10) != 0, 1000 + i, st.below(5) == 0))
     for i, (mti, sti) in enumerate(((1, 0), (0, 3), (5, 7), (2048, 512000), (12, 1), (I32MAX, 9))):
         out.append((mti, sti, True, 5000 + i, True, I32MAX - 4 + st.below(40)))
+    # interrupts unmasked, handlers, snapshots inside handlers, machine resets
+    per_pair = 2 if tier == "quick" else 12
+    for mti in range(13):
+        for sti in range(13):
+            for i in range(per_pair):
+                h = mix32(seed, mti, sti, i, 0x1E9)
+                out.append(("irq", mti, sti, (h % 11) != 0, i, (h >> 8) % 2 == 0, (h >> 12) % 3 == 0))
+    st = Stream(seed, 0x3AC3)
+    for i in range(60 if tier == "quick" else 800):
+        a = st.below(4)
+        big = lambda: st.choice((13, 16, 17, 31, 32, 33, 64, 100, 127, 128, 200, 255, 256, 257, 300))
+        mti, sti = ((big(), 0), (0, big()), (big(), big()), (1 + st.below(12), big()))[a]
+        out.append(("irq", mti, sti, st.below(12) != 0, 1000 + i, st.below(2) == 0, st.below(3) == 0))
     return out
 
 
 # --------------------------------------------------------------------------------------------------
+
+def rom_segments(case: Dict[str, Any]) -> List[Tuple[int, List[int]]]:
+    return [(MAIN, list(case["prog"])), (HANDLER, list(case["handler"])),
+            (IRQ_VECTOR, list(HANDLER.to_bytes(3, "little"))), (RESET_VECTOR, list(MAIN.to_bytes(3, "little")))]
+
+
+def rom_image(case: Dict[str, Any]) -> bytes:
+    img = bytearray(ROM_SIZE)
+    for addr, data in rom_segments(case):
+        img[addr - ROM_BASE:addr - ROM_BASE + len(data)] = bytes(data)
+    return bytes(img)
+
+
+def is_irq(case: Dict[str, Any]) -> bool:
+    return case.get("flavour") == "irq"
+
 
 def run_py_machine(case: Dict[str, Any], snap_path: str) -> Any:
     from pce500.emulator import PCE500Emulator
@@ -192,16 +316,33 @@ def run_py_machine(case: Dict[str, Any], snap_path: str) -> Any:
 
     isr_addr = INTERNAL_MEMORY_START + int(IMEMRegisters.ISR)
     imr_addr = INTERNAL_MEMORY_START + int(IMEMRegisters.IMR)
+    irq = is_irq(case)
+    image = rom_image(case) if irq else None
+    start_pc = MAIN if irq else BASE
+    imr = int(case.get("imr", 0)) & 0xFF
+    exec_flags: List[bool] = []
 
     def fresh() -> Any:
-        return PCE500Emulator(perfetto_trace=False, save_lcd_on_exit=False)
+        e = PCE500Emulator(perfetto_trace=False, save_lcd_on_exit=False)
+        if image is not None:
+            e.load_rom(image)          # the ROM is part of the machine, not of a snapshot
+        orig = e.cpu.execute_instruction
+
+        def execute_instruction(pc: int, _e: Any = e, _orig: Any = orig) -> Any:
+            # observation only: was the instruction executed inside an interrupt handler?
+            exec_flags.append(bool(getattr(_e, "_in_interrupt", False)))
+            return _orig(pc)
+
+        e.cpu.execute_instruction = execute_instruction   # instance attribute, this emulator only
+        return e
 
     emu = fresh()
-    for i, b in enumerate(case["prog"]):
-        emu.memory.write_byte(BASE + i, b)
-    emu.cpu.regs.set(RegisterName.PC, BASE)
-    emu.cpu.regs.set(RegisterName.S, 0xBFF00)
-    emu.memory.write_byte(imr_addr, 0)
+    if not irq:
+        for i, b in enumerate(case["prog"]):
+            emu.memory.write_byte(BASE + i, b)
+    emu.cpu.regs.set(RegisterName.PC, start_pc)
+    emu.cpu.regs.set(RegisterName.S, STACK_TOP)
+    emu.memory.write_byte(imr_addr, imr)
     emu.memory.write_byte(isr_addr, 0)
     emu._timer_mti_period = int(case["mti"])
     emu._timer_sti_period = int(case["sti"])
@@ -212,29 +353,50 @@ def run_py_machine(case: Dict[str, Any], snap_path: str) -> Any:
     def look() -> List[Any]:
         return [int(emu.cycle_count), emu.memory.read_byte(isr_addr) & 0xFF, int(emu._scheduler.next_mti),
                 int(emu._scheduler.next_sti), bool(getattr(emu.cpu.state, "halted", False)),
-                int(emu.cpu.regs.get(RegisterName.PC))]
+                int(emu.cpu.regs.get(RegisterName.PC)), bool(emu._in_interrupt),
+                int(emu.irq_counts.get("total", 0))]
 
-    for clear, snap in case["steps"]:
+    for clear, action in case["steps"]:
         if clear:
             cur = emu.memory.read_byte(isr_addr) & 0xFF
             emu.memory.write_byte(isr_addr, cur & ~clear & 0xFF)
-        if snap:
+        if action == 1:
             emu.save_snapshot(snap_path)
             emu = fresh()
             emu.load_snapshot(snap_path)
             obs.append({"restored": look()})
+        elif action == 2:
+            emu.reset()                                    # the real machine reset, after N > 0 cycles
+            if not irq:
+                for i, b in enumerate(case["prog"]):       # PCE500Memory.reset() zeroes RAM
+                    emu.memory.write_byte(BASE + i, b)
+                emu.cpu.regs.set(RegisterName.PC, start_pc)
+            emu.cpu.regs.set(RegisterName.S, STACK_TOP)
+            emu.memory.write_byte(imr_addr, imr)
+            emu.memory.write_byte(isr_addr, 0)
+            obs.append({"reset": look()})
+        in_before = bool(emu._in_interrupt)
+        del exec_flags[:]
         emu.step()
-        obs.append(look())
+        obs.append(look() + [exec_flags[-1] if exec_flags else in_before])
     return {"obs": obs}
 
 
 def run_rust_machine(cases: List[Dict[str, Any]], snap_path: str) -> List[Any]:
     out: List[Any] = []
     for i in range(0, len(cases), 32):
-        resp = rust_call({"cmd": "c13.machine", "cases": [
-            dict({k: c[k] for k in ("mti", "sti", "enabled", "prog", "steps")},
-                 base=BASE, snap_path=snap_path, **({"timer_base": c["timer_base"]} if "timer_base" in c else {}))
-            for c in cases[i:i + 32]]})
+        reqs = []
+        for c in cases[i:i + 32]:
+            r = dict({k: c[k] for k in ("mti", "sti", "enabled", "prog", "steps")}, base=BASE, snap_path=snap_path,
+                     stack=STACK_TOP)
+            if "timer_base" in c:
+                r["timer_base"] = c["timer_base"]
+            if is_irq(c):
+                r["base"] = MAIN
+                r["imr"] = int(c.get("imr", 0)) & 0xFF
+                r["rom"] = {"base": ROM_BASE, "size": ROM_SIZE, "segs": [[a, d] for a, d in rom_segments(c)]}
+            reqs.append(r)
+        resp = rust_call({"cmd": "c13.machine", "cases": reqs})
         if not resp.get("ok"):
             raise HarnessError(f"c13.machine failed: {str(resp)[:300]}")
         out.extend(resp["results"])
@@ -250,7 +412,9 @@ def _nb(x: int, base: int, p: int) -> int:
 
 def judge_machine(case: Dict[str, Any], impl: str, res: Any) -> Tuple[List[Violation], Dict[str, Any]]:
     out: List[Violation] = []
-    facts = {"fires": 0, "halt_idle": 0, "wait_multi": 0, "steps": 0, "max_step_cycles": 0}
+    facts = {"fires": 0, "halt_idle": 0, "wait_multi": 0, "steps": 0, "max_step_cycles": 0, "deliveries": 0,
+             "handler_steps": 0, "snap_in_handler": 0, "stale_restore": 0, "wait_unmasked_multi": 0,
+             "catch_up_after_handler": 0, "reset_after_run": 0, "derailed": 0}
     if not isinstance(res, dict) or "obs" not in res or res.get("error") or res.get("panic"):
         msg = str(res.get("panic") or res.get("error") if isinstance(res, dict) else res)
         out.append(Violation("crash", impl, "machine raised/panicked", case, msg[:300]))
@@ -259,6 +423,9 @@ def judge_machine(case: Dict[str, Any], impl: str, res: Any) -> Tuple[List[Viola
     active = [bool(case["enabled"]) and p > 0 for p in periods]
     base = int(case.get("timer_base", 0))
     hi = base + max(periods) > I32MAX
+    irq = is_irq(case)
+    imr = int(case.get("imr", 0)) & 0xFF
+    regions = ((MAIN, MAIN + len(case["prog"])), (HANDLER, HANDLER + len(case["handler"]))) if irq else ()
     dead = [False, False]
     after_snap = False
     prev: Optional[List[Any]] = None     # observation after the previous step
@@ -268,28 +435,42 @@ def judge_machine(case: Dict[str, Any], impl: str, res: Any) -> Tuple[List[Viola
     last_next = list(nxt0)
     last_isr = 0
     last_c = 0
+    last_in = False
+    last_irqs = 0
+    prev_exec = False
 
-    def fail(ti: int, subcheck: str, symptom: str, detail: str, k: int, full: bool = False) -> None:
+    def fail(ti: int, subcheck: str, symptom: str, detail: str, k: int, full: bool = False,
+             stale: bool = False) -> None:
         if dead[ti]:
             return
         dead[ti] = True
-        ctx = (" after-snapshot" if after_snap else "") + (" targets>i32" if full and hi else "")
+        ctx = ((" after-snapshot" if after_snap else "") + (" stale-target" if full and stale else "")
+               + (" targets>i32" if full and hi else ""))
         out.append(Violation(subcheck, f"{impl}:{TIMERS[ti]}{ctx}", symptom, case,
-                             f"step#{k} (mti={case['mti']} sti={case['sti']} enabled={case['enabled']}): {detail}"))
+                             f"step#{k} (mti={case['mti']} sti={case['sti']} enabled={case['enabled']}"
+                             f"{' imr=%#04x' % imr if irq else ''}): {detail}"))
 
-    for k, (clear, snap) in enumerate(steps):
+    for k, (clear, action) in enumerate(steps):
         isr_before = last_isr & ~clear & 0xFF
-        if snap:
+        if action == 1:
             o = next(it, None)
             if not isinstance(o, dict) or "restored" not in o:
                 out.append(Violation("crash", impl, "observation stream out of step", case, f"step#{k}: {o!r}"))
                 return out, facts
             r = o["restored"]
             after_snap = True
+            if last_in:
+                facts["snap_in_handler"] += 1
             for ti in range(2):
-                if active[ti] and r[2 + ti] != last_next[ti]:
+                if not active[ti]:
+                    continue
+                stale = last_next[ti] <= last_c      # saved target not in the future: timers were gated
+                if stale:
+                    facts["stale_restore"] += 1
+                if r[2 + ti] != last_next[ti]:
                     fail(ti, "restore", "snapshot/restore changed the next target",
-                         f"save->load at cycle {last_c}: target {r[2 + ti]}, before {last_next[ti]}", k, True)
+                         f"save->load at cycle {last_c} (in handler: {last_in}): target {r[2 + ti]}, "
+                         f"before {last_next[ti]}", k, True, stale)
             if r[0] != last_c and not (dead[0] and dead[1]):
                 out.append(Violation("restore", f"{impl}:cycle-counter", "snapshot/restore changed the cycle counter",
                                      case, f"step#{k}: cycle {r[0]} after load, {last_c} before save"))
@@ -298,15 +479,48 @@ def judge_machine(case: Dict[str, Any], impl: str, res: Any) -> Tuple[List[Viola
                 out.append(Violation("restore", f"{impl}:ISR", "snapshot/restore changed ISR bits 0/1", case,
                                      f"step#{k}: ISR {r[1]:#04x} after load, {isr_before:#04x} before save"))
                 return out, facts
+        elif action == 2:
+            o = next(it, None)
+            if not isinstance(o, dict) or "reset" not in o:
+                out.append(Violation("crash", impl, "observation stream out of step", case, f"step#{k}: {o!r}"))
+                return out, facts
+            r = o["reset"]
+            c0 = int(r[0])
+            if last_c > 0:
+                facts["reset_after_run"] += 1
+            after_snap = False
+            for ti in range(2):
+                if active[ti] and int(r[2 + ti]) - c0 != periods[ti]:
+                    fail(ti, "reset", "machine reset did not re-arm the timer one period after the cycle counter",
+                         f"reset after {last_c} cycles: cycle counter {c0}, target {r[2 + ti]}, "
+                         f"expected {c0 + periods[ti]}", k)
+                last_next[ti] = int(r[2 + ti]) if active[ti] else None
+            # the grid is re-anchored at the machine's own cycle counter at the moment of the reset
+            base, last_c, isr_before, last_in, prev = c0, c0, int(r[1]) & 0xFF, bool(r[6]), None
+            last_irqs = int(r[7])
+            prev_exec = False
         o = next(it, None)
         if not isinstance(o, list):
             out.append(Violation("crash", impl, "observation stream out of step", case, f"step#{k}: {o!r}"))
             return out, facts
         c, isr = int(o[0]), int(o[1])
+        in_after = bool(o[6]) if len(o) > 6 else False
+        irqs = int(o[7]) if len(o) > 7 else 0
+        # in_exec: the instruction of this step ran inside an interrupt handler, i.e. with the timers gated
+        in_exec = bool(o[8]) if len(o) > 8 else False
+        if irq and not any(lo_ <= int(o[5]) <= hi_ for lo_, hi_ in regions):
+            # the program counter left main program and handler: nothing generated is being executed any more
+            # (vectoring/stack problems are C12's subject); stop judging this run
+            facts["derailed"] = 1
+            break
         facts["steps"] += 1
         facts["max_step_cycles"] = max(facts["max_step_cycles"], c - last_c)
+        facts["deliveries"] += max(0, irqs - last_irqs)
+        if in_exec:
+            facts["handler_steps"] += 1
         if o[4] and prev is not None and prev[4]:
             facts["halt_idle"] += 1
+        crossed_total = 0
         for ti in range(2):
             bit = 1 << ti
             p = periods[ti]
@@ -324,17 +538,21 @@ def judge_machine(case: Dict[str, Any], impl: str, res: Any) -> Tuple[List[Viola
             moved = tgt != old
             if moved:
                 facts["fires"] += 1
+                crossed_total += max(1, (tgt - old) // p)
                 if (tgt - old) // p > 1:
                     facts["wait_multi"] += 1
+                if prev_exec and not in_exec and old <= last_c:
+                    facts["catch_up_after_handler"] += 1
             if (tgt - base) % p != 0 or tgt <= base:
                 fail(ti, "next-target", "next target is off the period grid",
                      f"cycle {last_c}->{c}: target {tgt}, grid {base}+k*{p}", k)
             elif tgt < old:
                 fail(ti, "next-target", "next target moved backwards", f"cycle {last_c}->{c}: target {old} -> {tgt}", k)
-            elif tgt < lo:
+            elif tgt < lo and not in_exec:
+                # an instruction executed outside a handler: every one of its cycles is ticked
                 fail(ti, "cadence", "boundary crossed but not consumed by the end of the step",
                      f"cycle {last_c}->{c}: target still {tgt} although cycle {c - 1} has passed "
-                     f"(halted={o[4]}, step took {c - last_c} cycle(s))", k)
+                     f"(halted={o[4]}, step took {c - last_c} cycle(s), in handler after the step: {in_after})", k)
             elif tgt > hi_b:
                 fail(ti, "cadence", "boundary consumed before the cycle counter reached it",
                      f"cycle {last_c}->{c}: target {tgt}, smallest boundary > {c} is {hi_b}", k)
@@ -344,11 +562,15 @@ def judge_machine(case: Dict[str, Any], impl: str, res: Any) -> Tuple[List[Viola
             elif not moved and now and not was:
                 fail(ti, "status-bit", "status bit set without firing",
                      f"cycle {last_c}->{c}: target stays {tgt}, ISR {isr_before:#04x} -> {isr:#04x}", k)
-            elif was and not now:
+            elif was and not now and not in_exec:
+                # (inside a handler the program acknowledges requests: CoreRuntime's RETI clears the delivered bit)
                 fail(ti, "status-bit", "step cleared a pending status bit",
-                     f"cycle {last_c}->{c}: ISR {isr_before:#04x} -> {isr:#04x} with IMR=0", k)
+                     f"cycle {last_c}->{c}: ISR {isr_before:#04x} -> {isr:#04x} outside any handler", k)
             last_next[ti] = tgt
-        last_isr, last_c, prev = isr, c, o
+        if (irq and not in_exec and c - last_c > 1 and crossed_total >= 2 and (imr & 0x80)
+                and (imr & 3 & sum(1 << i for i in range(2) if active[i]))):
+            facts["wait_unmasked_multi"] += 1
+        last_isr, last_c, prev, last_in, last_irqs, prev_exec = isr, c, o, in_after, irqs, in_exec
     return out, facts
 
 
